@@ -160,6 +160,8 @@ class CutScn:
 
                 def cbf(x):
                     cbcalls.append(x)
+                    if x != END and P.get("cb_raises_item") and len(cbcalls) == 1:
+                        raise ValueError("this callback fails on its first item")
                     if x == END and P.get("cb_raises_end"):
                         raise ValueError("this callback fails on its endmarker")
 
@@ -270,7 +272,7 @@ class CutScn:
                         return V("wrong-exception", f"waitclose on cleanly closed channel {ci}: {e[3]}")
                 elif e[3] != "EOFError":
                     return V("waitclose-not-eof", f"waitclose on channel {ci} (not closed before the cut) ended with {e[3]!r}, expected EOFError")
-        if P.get("callback") is not None:
+        if P.get("callback") is not None and not P.get("cb_raises_item"):
             ci = P["callback"]
             calls = S.ctx.get("cbfinal", [])
             items = [c for c in calls if c != END]
@@ -343,6 +345,9 @@ BASES = [
     {"items": [(0, 5), (1, 5)], "extra": 1, "closes": [], "block": True, "receivers": {1: 1}, "waiters": {1: 1}, "callback": 0, "inflight": False, "cb_raises_end": True},
     # F: the callback channel's handle was dropped before the loss (only the registered callback is left)
     {"items": [(0, 5), (1, 5), (1, 0)], "extra": 1, "closes": [], "block": True, "receivers": {0: 1}, "waiters": {0: 1}, "callback": 1, "inflight": False, "cb_dropped": True},
+    # G: a callback that FAILS on its first item (reporting that to a peer that may be dead already) sits next
+    # to a channel with a blocked receiver and waitclose caller whose items arrive afterwards
+    {"items": [(0, 5), (1, 5), (1, 40)], "extra": 1, "closes": [], "block": True, "receivers": {1: 1}, "waiters": {1: 1}, "callback": 0, "inflight": False, "cb_raises_item": True},
     # C: nothing but an in-flight remote_exec and idle channels, two waitclose callers
     {"items": [(1, 5)], "extra": 1, "closes": [], "block": True, "receivers": {1: 1}, "waiters": {0: 2}, "callback": None, "inflight": True},
 ]
@@ -361,7 +366,7 @@ def run(tier: str, only=None) -> int:
     transports = ("popen", "socket", "via")
     for bi, base in enumerate(BASES):
         for tr in transports:
-            name = f"cut/{'ABDEFC'[bi]}:{tr}"
+            name = f"cut/{'ABDEFGC'[bi]}:{tr}"
             if only and only not in name:
                 continue
             # quick: bases D..C on popen only -- except D (the survivor keeps sending) on via, where a failing
